@@ -121,6 +121,16 @@ class Oracle(BaseOracle):
         self.check_proc(q, ev)
 
     def check_proc(self, q, ev):
+        if ev is not None:
+            # successors of a state that is itself ill-formed (reached through a recorded C04 finding)
+            # carry doubly / wrongly bound names; their text cannot be judged
+            if not hasattr(self, "_src_ok"):
+                from vf import wf as _wf
+
+                self._src_ok = not _wf.validate(self.st.proc._loopir_proc)
+            if not self._src_ok:
+                self.stat("skip:source-illformed")
+                return
         self.stat("procedures_printed")
         base = {"op": ev["op"] if ev else "seed", "seed": self.st.seed.name}
         txt = str(q)
